@@ -189,12 +189,15 @@ func c20Cases(thorough bool) []c20Case {
 		{acc, func(string) string { return "balance" }, func(v string) interface{} { return v }, false, "balance-any-value"},
 		{txs, func(string) string { return "reference" }, func(v string) interface{} { return v }, false, "reference"},
 		{txs, func(string) string { return "timestamp" }, func(v string) interface{} { return v }, false, "timestamp"},
+		{txs, func(string) string { return "date" }, func(v string) interface{} { return v }, false, "date"},
+		{txs, func(string) string { return "id" }, func(v string) interface{} { return v }, false, "id"},
 		{txs, func(string) string { return "account" }, func(v string) interface{} { return v }, true, "account"},
 		{txs, func(string) string { return "source" }, func(v string) interface{} { return v }, true, "source"},
 		{txs, func(string) string { return "destination" }, func(v string) interface{} { return v }, true, "destination"},
 		{txs, func(string) string { return "metadata[k]" }, func(v string) interface{} { return v }, false, "metadata-value"},
 		{txs, func(v string) string { return "metadata[" + v + "]" }, func(string) interface{} { return "x" }, false, "metadata-key"},
 		{[]string{"GetLogs"}, func(string) string { return "date" }, func(v string) interface{} { return v }, false, "date"},
+		{[]string{"GetLogs"}, func(string) string { return "id" }, func(v string) interface{} { return v }, false, "id"},
 		{append(append([]string{"GetLogs"}, acc...), txs...), func(v string) string { return v }, func(string) interface{} { return "x" }, false, "unknown-key"},
 	}
 	for _, ks := range keys {
